@@ -380,6 +380,8 @@ def suites(tier, seed):
                 hs.append(Harness(n, unwind=max(70, mlen + 20), timeout=2400, site="push(literal state)",
                                   desc="literal (key, nonce) instance, counter %#x, symbolic %d-byte message and tag: MAC key, tag block, ciphertext and post-state (real rekey) vs the harness's ChaCha20" % (ctr, mlen),
                                   bounds={"mlen": mlen, "counter": ctr, "key": "literal (seeded)"}))
+                if tier == "quick" and ctr == 0xffffffff:
+                    continue    # ~15 min on its own; the wrap-around pull at a literal key is in the thorough tier (the A-type pull harnesses cover all 2^32 counters)
                 n = "c03_pull_literal_k%d_c%08x_m%d" % (ki, ctr, mlen)
                 src += h_b_pull(n, key, inonce, ctr, mlen)
                 hs.append(Harness(n, unwind=max(70, mlen + 20), timeout=2400, site="pull(literal state)",
